@@ -621,6 +621,7 @@ def run(P, R, tier):
     trialreset_rule(P, R)
     savefree_rule(P, R)
     halfstep_rule(P, R)
+    halforigin_rule(P, R)
     cvodeorigin_rule(P, R)
     exitcheck_rule(P, R)
     timeorigin_rule(P, R)
@@ -1239,6 +1240,9 @@ def halfstep_rule(P, R):
                             pre.append((nx[1], " ".join(T.text(nx[4][0]).split())))
         if x[0] == "If" and not T.is_node(x[4]):
             b = single(x[3])
+            if T.is_node(b) and b[0] == "Compound":      # the block may also move the time origin: take its kin_time statement
+                ks = [y for y in b[2] if T.is_node(y) and y[0] == "Bin" and is_kin_time(y[3])]
+                b = ks[0] if len(ks) == 1 else b
             if T.is_node(b) and b[0] == "Bin" and is_kin_time(b[3]):
                 ops = eq_operand(x[2])
                 if b[2] == "/=" and T.lit_value(T.strip_casts(b[4])) == 2 and ops:
@@ -1257,6 +1261,56 @@ def halfstep_rule(P, R):
             R.violation(RULE, tag, "the pre-shift half step is given to cell `%s` (line %d) but kin_time is %s after the shift for `i == %s` (line %d): with the other flow "
                         "direction one end cell reacts for 1.5 and the other for 0.5 time steps per shift" % (ref, pre[0][0], "halved" if tag == "halve" else "restored", e, line),
                         file=f["file"], line=line, function=f["q"])
+
+
+def halforigin_rule(P, R):
+    """The two half steps of the inflow cell cover [t, t + dt/2] and [t + dt/2, t + dt].  run_reactions integrates from the member
+    rate_sim_time_start; the block that halves kin_time for the second half step must advance rate_sim_time_start by the half step and the
+    block that restores kin_time must take it back - otherwise a rate that depends on TOTAL_TIME is integrated twice over the first half
+    (cell 1 held 9.9775e-3 for 9.955e-3) and the cell is punched with the time of the half step."""
+    RULE = "C12.halforigin"
+    R.rule(RULE, "transport: the second half step of the inflow cell starts where the first ended (rate_sim_time_start advanced with the halving, restored with kin_time)", minimum=2)
+    f = P.one("Phreeqc::transport")
+
+    def is_kin_time(n):
+        n = T.strip_casts(n)
+        return T.is_node(n) and n[0] == "Ref" and n[3] == "kin_time"
+
+    def origin_shift(block):
+        for t, how, line, w in T.writes(block):
+            root, steps = T.access_path(t)
+            txt = T.text(t)
+            if "rate_sim_time_start" in txt and how == "op=":
+                return w[2], " ".join(T.text(w[4]).split())
+        return None
+    found = 0
+    for x in T.walk(f["body"]):
+        if x[0] != "If" or T.is_node(x[4]):
+            continue
+        body = x[3]
+        stmts = body[2] if T.is_node(body) and body[0] == "Compound" else [body]
+        ks = [y for y in stmts if T.is_node(y) and y[0] == "Bin" and is_kin_time(y[3])]
+        if len(ks) != 1 or not any(y[0] == "Ref" and y[3] == "i" for y in T.walk(x[2])):
+            continue
+        k = ks[0]
+        if k[2] == "/=" and T.lit_value(T.strip_casts(k[4])) == 2:
+            found += 1
+            sh = origin_shift(body)
+            if sh and sh[0] == "+=" and sh[1] == "kin_time":
+                R.ok(RULE, "halve", "rate_sim_time_start += kin_time (line %d)" % x[1])
+            else:
+                R.violation(RULE, "halve", "kin_time is halved for the second half step of the inflow cell (line %d) but rate_sim_time_start is not advanced by the half step: both "
+                            "halves are integrated from the same time" % x[1], file=f["file"], line=x[1], function=f["q"])
+        elif k[2] == "=" and "kin_time_save" in T.text(k[4]):
+            found += 1
+            sh = origin_shift(body)
+            if sh and sh[0] == "-=" and sh[1] == "kin_time":
+                R.ok(RULE, "restore", "rate_sim_time_start -= kin_time (line %d)" % x[1])
+            else:
+                R.violation(RULE, "restore", "kin_time is restored after the inflow cell (line %d) but the time origin is not: the following cells are integrated from a time "
+                            "that is half a step late" % x[1], file=f["file"], line=x[1], function=f["q"])
+    if found != 2:
+        R.anchor_missing(RULE, "transport: %d of the 2 kin_time blocks of the inflow cell found" % found)
 
 
 def cvodeorigin_rule(P, R):
